@@ -104,4 +104,48 @@ var plans = map[string]*Plan{
 		},
 		CrashSig: rengCrash("C11"),
 	},
+	"C10": {
+		Level: "exploration",
+		Rule: "histories of writes (all shapes), RW<->WO mode flips, explicit counter sets (accepted only in RW), reopen +-preload, snapshots and runs of 2-16 concurrent writers on disjoint blocks; after every step the in-memory and the persisted counter are compared with a model (+1 per applied write in RW, +0 in WO), concurrent samples must lie between completed and issued writes; " +
+			"non-trivial = >=1 unaligned write, a mode flip or set, and a reopen; distinct = hash of the op-kind sequence",
+		Assumptions: rengAssume,
+		Floor:       map[string]int64{"revision_samples": 300, "concurrent_runs": 5},
+		Jobs: func(tier string) []Job {
+			return jobs("reng", 16, tierN(tier, 6, 100), "", time.Duration(tierN(tier, 10, 80))*time.Minute)
+		},
+		CrashSig: rengCrash("C10"),
+	},
+	"C12": {
+		Level: "exploration",
+		Rule: "sequences of 15-45 management requests: valid ones (snapshot, cleaner/raw removal, mark-removed, revert, resize, checkpoint) mixed with requests that must change nothing (remove/prepare-remove/revert/replace of head, latest, base, unknown, prefix-less and metadata-file names; duplicate snapshot names; shrink; chain surgery in WO mode; everything on a closed replica) and orphan clean-up after reverts; after every request chain == model chain, every member has data+metadata file, attributes and full read unchanged; close+open reproduces chain, attributes, size, checkpoint and data; " +
+			"non-trivial = >=1 unaligned write, >=1 chain mutation, >=1 reopen; distinct = hash of the op-kind sequence",
+		Assumptions: rengAssume,
+		Floor:       map[string]int64{"bad_requests": 100, "chain_checks": 300},
+		Jobs: func(tier string) []Job {
+			return jobs("reng", 16, tierN(tier, 8, 200), "", time.Duration(tierN(tier, 10, 90))*time.Minute)
+		},
+		CrashSig: rengCrash("C12"),
+	},
+	"C16": {
+		Level: "exploration",
+		Rule: "histories with 1-5 growths (byte counts and human-readable sizes, 1-24 blocks) interleaved with I/O of all shapes, snapshots, removals, reverts and reopen; shrink, garbage, empty and zero sizes must be refused without change; after growth: old range unchanged, new range zero and writable, every snapshot image = old image + zeros, size survives reopen; " +
+			"non-trivial as C01; distinct = hash of the op-kind sequence",
+		Assumptions: rengAssume,
+		Floor:       map[string]int64{"resizes": 30, "resize_refusals_probed": 20},
+		Jobs: func(tier string) []Job {
+			return jobs("reng", 16, tierN(tier, 6, 100), "", time.Duration(tierN(tier, 10, 80))*time.Minute)
+		},
+		CrashSig: rengCrash("C16"),
+	},
+	"C17": {
+		Level: "exploration",
+		Rule: "random walks of 20-40 steps over closed / open-without-mode / RW / WO with I/O, chain surgery and counter updates attempted in every state: closed => all I/O and management calls fail and the directory hash is unchanged; open without mode => a write is reported failed and not counted; WO => writes apply, removals/replace/counter updates refused without side effects; RW => everything applies (model-checked); " +
+			"non-trivial = walk visits >=3 different states incl. a reopen; distinct = hash of the op-kind sequence",
+		Assumptions: append([]string{"the bytes of a write refused in the open-without-mode state do reach the head file (mode check after the data write); the verdict is on the reported outcome and the counter, as DESIGN.md C17 explains"}, rengAssume...),
+		Floor:       map[string]int64{"gate_probes_closed": 50, "gate_probes_WO": 50, "gate_probes_INIT": 20},
+		Jobs: func(tier string) []Job {
+			return jobs("reng", 16, tierN(tier, 8, 150), "", time.Duration(tierN(tier, 10, 80))*time.Minute)
+		},
+		CrashSig: rengCrash("C17"),
+	},
 }
